@@ -20,7 +20,7 @@ RULE = ("schemas with mutable defaults on typed lists/dicts (scalars, dict items
         "load of the unchanged files; hand-made argparse namespaces (known options, options a dynamic or fixed section "
         "does not declare) go through cmdline_args_override; non-trivial = >= 3 "
         "operations applied with >= 1 in-place mutation or dynamic field; distinct = distinct (schema, history)")
-REQUIRED = ("schemas_with_environment_prefix", "resets_then_inplace_mutations", "cmdline_namespaces_applied", "same_document_loads", "cross_assignments", "serialisations_applied", "twin_before_checks", "twin_after_checks", "fingerprint_checks", "shared_item_checks", "ops_applied",
+REQUIRED = ("failed_include_loads", "foreign_method_secrets_loaded", "schemas_with_environment_prefix", "resets_then_inplace_mutations", "cmdline_namespaces_applied", "same_document_loads", "cross_assignments", "serialisations_applied", "twin_before_checks", "twin_after_checks", "fingerprint_checks", "shared_item_checks", "ops_applied",
             "inplace_mutations", "dynamic_fields_added")
 ASSUMPTIONS = ["deep mutation inside an *untyped* default (ListField(default=[[1]]), Field(default=[...])) is out of "
                "scope: the property quantifies over mutable defaults on typed fields"]
@@ -88,6 +88,10 @@ def generate(rng, ctx):
         if items:
             ops.insert(rng.randrange(len(ops) + 1), {"op": "cmdline_ns", "items": items,
                                                      "ignore": rng.choice([None, None, "config", [items[0][0]]])})
+    # documents written by another tool: a secret encrypted with the other provider than the field declares
+    for path, nd in history.all_paths(schema):
+        if "[]" not in path and nd["kind"] == "field" and nd["family"] == "secure" and rng.random() < 0.7:
+            ops.insert(rng.randrange(len(ops) + 1), {"op": "load_foreign_secret", "path": path, "text": "foreign-%d" % rng.randrange(99)})
     # reset a typed list / dict with a mutable default, then change it in place
     for path, nd in history.all_paths(schema):
         if "[]" in path or nd["kind"] != "field" or nd["family"] not in ("list", "dict") or not history._typed(nd):
@@ -283,6 +287,8 @@ def run(case, ctx, res):
             res.count("serialisations_applied")
         if out["kind"] == "cmdline-ns":
             res.count("cmdline_namespaces_applied")
+        if out["kind"] == "load-foreign-secret" and out["raised"] is None:
+            res.count("foreign_method_secrets_loaded")
         if op.get("then_mutate") and out["raised"] is None:
             res.count("resets_then_inplace_mutations")
         if out["kind"] == "set-dynamic" and out["raised"] is None:
@@ -530,6 +536,32 @@ def run_samedoc(case, ctx, res):
     fp0 = fingerprint(cc, root)
     b0 = Snapshot(b)
     applied = 0
+    # loads that fail in the include step (by file and by string): whatever the load set up on the way must be undone
+    for how in ("load", "loads"):
+        bad = {"inc": rng.choice(["missing-include." + fmt, os.path.join(d, "nowhere", "x." + fmt)]), "name": "n-bad",
+               "sub": {"inc2": "also-missing." + fmt}}
+        if not trees.in_domain(fmt, bad):
+            continue
+        try:
+            blob = codec.dumps(probe, bad)
+            badfile = os.path.join(d, "badmain." + fmt)
+            with open(badfile, "wb") as fp:
+                fp.write(blob)
+            if how == "load":
+                a.load(badfile, fmt)
+            else:
+                a.loads(blob, fmt)
+            res.count("failing_include_load_did_not_fail")
+        except Exception:
+            res.count("failed_include_loads")
+        diff = fp_diff(fp0, fingerprint(cc, root))
+        if diff:
+            res.viol("M-twin", "same-document:schema-after-failed-include", "a %s() whose include file is missing changed the schema: %s" % (how, diff))
+            return
+        diff = b0.diff(Snapshot(b))
+        if diff:
+            res.viol("M-twin", "same-document:twin-after-failed-include", "a failed %s() on a changed configuration b: %s" % (how, "; ".join(diff[:3])))
+            return
     for idx in range(case["n"]):
         conts = []
         _containers(cc, a, "", conts)
